@@ -111,7 +111,7 @@ class C10(e1.E1Check):
                 if x is None:
                     return None
                 for k in path:
-                    if not isinstance(x, ext.Content):
+                    if not isinstance(x, (ext.Content, ext.Record)):
                         raise ValueError("scalar has no fields")
                     x = x[k]
                 return x
